@@ -208,6 +208,82 @@ def run_batch(a):
         g.cleanup()
 
 
+# ---- the event-payload site again: which binding of a name the payload is. A payload variable has the type of the binding that is in
+# scope at the emit — the last `let` of that name in the enclosing blocks, else the parameter. Scenarios: (label, function text with
+# @T@ for a probe type, expectation) where the expectation is "T" (the probe type, exactly), "A" / "B" (the two marker structs, exactly)
+# or "?" — nothing in the source says what the type is: `unknown` is the only honest answer. For "B?" (a call Type::function(..), which
+# usually but not necessarily returns Type) either B or unknown is honest. A struct literal or a typed variable spells the type out.
+SCOPE_SCENARIOS = [
+    ("parameter", "pub fn sc@K@(app: AppHandle, y: @T@) {\n    app.emit(\"sc@K@\", y).unwrap();\n}\n", "T"),
+    ("annotated-let-shadows-parameter", "pub fn sc@K@(app: AppHandle, y: ScA) {\n    let y: @T@ = make(y);\n    app.emit(\"sc@K@\", y).unwrap();\n}\n", "T"),
+    ("annotated-let-shadows-annotated-let", "pub fn sc@K@(app: AppHandle) {\n    let y: ScA = make(0);\n    let y: @T@ = make(y);\n    app.emit(\"sc@K@\", &y).unwrap();\n}\n", "T"),
+    ("struct-literal-let-shadows-parameter", "pub fn sc@K@(app: AppHandle, y: @T@) {\n    let y = ScB { b: format!(\"{:?}\", y) };\n    app.emit(\"sc@K@\", &y).unwrap();\n}\n", "B"),
+    ("struct-literal-let-shadows-struct-literal-let", "pub fn sc@K@(app: AppHandle) {\n    let y = ScA { a: 1 };\n    let _ = &y;\n    let y = ScB { b: String::new() };\n    app.emit(\"sc@K@\", &y).unwrap();\n}\n", "B"),
+    ("constructor-call-let-shadows-parameter", "pub fn sc@K@(app: AppHandle, y: @T@) {\n    let y = ScB::from_probe(&y);\n    app.emit(\"sc@K@\", y).unwrap();\n}\n", "B?"),
+    ("variable-let-shadows-parameter", "pub fn sc@K@(app: AppHandle, y: ScA, other: @T@) {\n    let y = other;\n    app.emit(\"sc@K@\", y).unwrap();\n}\n", "T"),
+    ("opaque-call-let-shadows-parameter", "pub fn sc@K@(app: AppHandle, y: @T@) {\n    let y = summarise(y);\n    app.emit(\"sc@K@\", y).unwrap();\n}\n", "?"),
+    ("field-access-let-shadows-parameter", "pub fn sc@K@(app: AppHandle, y: ScA) {\n    let y = y.a;\n    app.emit(\"sc@K@\", y).unwrap();\n}\n", "?"),
+    ("tuple-pattern-let-shadows-parameter", "pub fn sc@K@(app: AppHandle, y: @T@) {\n    let (y, _rest) = split(y);\n    app.emit(\"sc@K@\", y).unwrap();\n}\n", "?"),
+    ("inner-block-let-does-not-outlive-its-block", "pub fn sc@K@(app: AppHandle, y: @T@) {\n    {\n        let y = ScB { b: String::new() };\n        let _ = &y;\n    }\n    app.emit(\"sc@K@\", y).unwrap();\n}\n", "T"),
+    ("if-branch-let-does-not-outlive-the-branch", "pub fn sc@K@(app: AppHandle, y: @T@, c: bool) {\n    if c {\n        let y: ScB = make(0);\n        drop(y);\n    }\n    app.emit(\"sc@K@\", y).unwrap();\n}\n", "T"),
+    ("loop-variable-shadows-parameter-inside-the-loop", "pub fn sc@K@(app: AppHandle, y: @T@) {\n    for y in pieces(&y) {\n        app.emit(\"sc@K@\", y).unwrap();\n    }\n}\n", "?"),
+    ("loop-variable-gone-after-the-loop", "pub fn sc@K@(app: AppHandle, y: @T@) {\n    for y in 0..3 {\n        let _ = y;\n    }\n    app.emit(\"sc@K@\", y).unwrap();\n}\n", "T"),
+    ("match-arm-binding-shadows-parameter", "pub fn sc@K@(app: AppHandle, y: @T@) {\n    match lookup(&y) {\n        Some(y) => app.emit(\"sc@K@\", y).unwrap(),\n        None => {}\n    }\n}\n", "?"),
+    ("if-let-binding-shadows-parameter", "pub fn sc@K@(app: AppHandle, y: @T@) {\n    if let Some(y) = lookup(&y) {\n        app.emit(\"sc@K@\", y).unwrap();\n    }\n}\n", "?"),
+    ("closure-parameter-shadows-parameter", "pub fn sc@K@(app: AppHandle, y: @T@) {\n    let send = |y| app.emit(\"sc@K@\", y).unwrap();\n    send(1);\n    let _ = y;\n}\n", "?"),
+    ("let-after-the-emit-does-not-reach-back", "pub fn sc@K@(app: AppHandle, y: @T@) {\n    app.emit(\"sc@K@\", &y).unwrap();\n    let y = ScB { b: String::new() };\n    let _ = y;\n}\n", "T"),
+    ("same-name-in-another-function", "pub fn sc@K@_first(_app: AppHandle, y: ScA) {\n    let _ = y;\n}\n\npub fn sc@K@(app: AppHandle, y: @T@) {\n    app.emit(\"sc@K@\", y).unwrap();\n}\n", "T"),
+]
+SCOPE_TYPES = ["Named", "Vec<Named>", "Option<Named>", "HashMap<String, Named>", "(Named, u32)", "String", "u64", "Vec<Vec<u8>>", "bool"]
+
+
+def run_scope_cases(a):
+    cli, k0, mode = a
+    src = [rg.PRELUDE, "use tauri::{AppHandle, Emitter};\n\n", rg.struct_src("Named", [("a", "i32")]), rg.struct_src("ScA", [("a", "i32")]), rg.struct_src("ScB", [("b", "String")]),
+           rg.command_src("anchor", [("n", "Named"), ("a", "ScA"), ("b", "ScB")], "i32")]
+    want = {}
+    for j, (label, text, exp) in enumerate(SCOPE_SCENARIOS):
+        tr = SCOPE_TYPES[(k0 + j) % len(SCOPE_TYPES)]
+        key = "%d_%d" % (k0, j)
+        src.append(text.replace("@K@", key).replace("@T@", tr) + "\n")
+        want["sc" + key] = (label, tr, exp)
+    files = [("lib.rs", "".join(src))]
+    g = proj.generate(cli, files, mode=mode, tag="c05s")
+    try:
+        if g.run.timed_out:
+            return {"inconclusive": "watchdog"}
+        if g.run.rc != 0:
+            return {"blocked": True, "note": g.run.err[-200:]}
+        listeners = {l["event"]: l for l in g.output.listeners() if l["event"]}
+        marker = {"A": ("ref", "ScA"), "B": ("ref", "ScB")}
+        bad, n = [], 0
+        for ev, (label, tr, exp) in want.items():
+            n += 1
+            l = listeners.get(ev)
+            try:
+                got = sh.ts_shape(l["payload"]) if l and l["payload"] is not None else None
+            except sh.ShapeError:
+                got = None
+            t_shape = rg.M(TYPE_OF[tr])
+            allowed = []
+            core = exp.rstrip("?")
+            if core == "T":
+                allowed.append(t_shape)
+            elif core in marker:
+                allowed.append(marker[core])
+            if exp.endswith("?"):
+                allowed.append(("unknown",))
+            if got not in allowed:
+                bad.append((label, tr, [sh.show(x) for x in allowed], sh.show(got) if got else "<no listener>"))
+        return {"bad": bad, "n": n, "files": files}
+    finally:
+        g.cleanup()
+
+
+TYPE_OF = {"Named": rg.N("Named"), "Vec<Named>": ("vec", rg.N("Named")), "Option<Named>": ("opt", rg.N("Named")), "HashMap<String, Named>": ("hmap", rg.P("String"), rg.N("Named")),
+           "(Named, u32)": ("tuple", [rg.N("Named"), rg.P("u32")]), "String": rg.P("String"), "u64": rg.P("u64"), "Vec<Vec<u8>>": ("vec", ("vec", rg.P("u8"))), "bool": rg.P("bool")}
+
+
 def run(tier):
     v = Verdict("C05", "exploration", tier)
     cli = common.build_cli()
@@ -282,6 +358,21 @@ def run(tier):
                 modelled = cls.startswith(("ts-text ", "zod-schema "))     # output equals a recorded defect model exactly: same defect, same signature
                 v.violation("C05 " + cls + (" spelling=path-qualified" if spelling and not modelled else ""), what,
                             proj.witness_of(build_batch([(i, t)], spelling=spelling), mode, extra={"type": rg.rust(t), "site": site, "spelling": spelling}))
+    sjobs = [(cli, k, mode) for k in range(len(SCOPE_TYPES)) for mode in ("none", "zod")]
+    for (job, res) in zip(sjobs, common.pmap(run_scope_cases, sjobs)):
+        if "inconclusive" in res:
+            v.inconclusive.append("scope batch hit watchdog")
+            continue
+        if "blocked" in res:
+            v.blocked += 1
+            v.evaluations += 1
+            continue
+        v.count("payload_binding_scenarios", res["n"])
+        for j in range(res["n"]):
+            v.case(("scope", job[1], j, job[2]), nontrivial=True)
+        for (label, tr, allowed, got) in res["bad"]:
+            v.violation("C05 event-payload-binding %s" % label, "%s mode, probe type %s: the payload's type is %s, the listener says %s" % (job[2], tr, " or ".join(allowed), got),
+                        proj.witness_of(res["files"], job[2], extra={"scenario": label}))
     v.samples = [{"type": rg.rust(t), "expected": sh.show(rg.M(t))} for (i, t) in types[:: max(1, len(types) // 8)]][:8]
     v.extra["exhaustive_chain_depth"] = maxd
     v.extra["exhaustive_chain_expressions"] = exhaustive_n
